@@ -81,6 +81,23 @@ Theorem C17_scoped_whole_program : forall p c,
 Proof. exact solo_scoped. Qed.
 Print Assumptions C17_scoped_whole_program.
 
+(* A FAILED CONSTRUCTION CHANGES NOTHING.  parallel_config(...) / parallel_backend(...) refuse exactly the argument
+   combinations [rejected] (no backend but inner_max_num_threads / extra backend params; unknown backend name; an instance
+   together with backend params; inner_max_num_threads with a backend that does not support it), whatever the current
+   configuration; the refused call leaves the thread's configuration, its open blocks and its observations untouched (under
+   every schedule), and `try: with <refused>: ... except: pass` followed by p is indistinguishable from p alone. *)
+Theorem C17_failed_construction_changes_nothing :
+  (forall s old, (exists e, enter s old = Raise e) <-> rejected s = true) /\
+  (forall g t m s body c k tr sched,
+     g t = mk c (Run (PWith m s body)) k tr -> rejected (norm_spec m s) = true -> count_tid t sched = 1%nat ->
+     grun sched g t = mk c Throw k tr) /\
+  (forall m s body p c k tr n, rejected (norm_spec m s) = true ->
+     iter (5 + n) (mk c (Run (PSeq (PTry (PWith m s body)) p)) k tr) = iter n (mk c (Run p) k tr)).
+Proof.
+  split; [exact enter_rejected_iff|]. split; [exact failed_construction_any_schedule | exact failed_construction_invisible].
+Qed.
+Print Assumptions C17_failed_construction_changes_nothing.
+
 (* THREAD-LOCAL.  A step of thread t leaves every other thread's state (configuration, stack, observations) unchanged,
    and under any schedule the state of a thread -- hence everything it observes -- is exactly what its own steps alone
    produce: no thread ever observes another thread's settings. *)
@@ -185,11 +202,14 @@ Print Assumptions C17_invalid_rejected.
    in a state with three enclosing blocks and the resolution picks arguments from three different levels *)
 Example C17_example :
   let s1 := {| s_backend := Some (BInst BThr None); s_njobs := Some (Some 3); s_verbose := Some 60; s_temp := None;
-               s_maxnb := None; s_mmap := None; s_prefer := None; s_require := None |} in
+               s_maxnb := None; s_mmap := None; s_prefer := None; s_require := None;
+     s_byname := false; s_inner := None; s_params := false |} in
   let s2 := {| s_backend := None; s_njobs := None; s_verbose := None; s_temp := Some 2; s_maxnb := Some (MStr 2 75);
-               s_mmap := None; s_prefer := Some 2; s_require := None |} in
+               s_mmap := None; s_prefer := Some 2; s_require := None;
+     s_byname := false; s_inner := None; s_params := false |} in
   let s3 := {| s_backend := Some (BInst BMp (Some 1)); s_njobs := None; s_verbose := None; s_temp := None;
-               s_maxnb := None; s_mmap := Some 4; s_prefer := None; s_require := None |} in
+               s_maxnb := None; s_mmap := Some 4; s_prefer := None; s_require := None;
+     s_byname := false; s_inner := None; s_params := false |} in
   let a := {| a_njobs := None; a_backend := None; a_verbose := None; a_temp := Some 1; a_maxnb := None; a_mmap := None;
               a_prefer := None; a_require := None |} in
   let p := PSeq (PTry (PWith MConfig s1 (PWith MConfig s2 (PSeq (PWith MConfig s3 (PSeq (PObs (QParallel a)) PRaise))
